@@ -276,6 +276,12 @@ func TestC04WalletLevel(t *testing.T) {
 				locked = false
 			case "lock":
 				w.Lock()
+				// Lock only hands the request to the wallet's locker goroutine;
+				// asking for the state afterwards is answered by the same
+				// goroutine, i.e. after the lock has happened
+				if !w.Locked() {
+					t.Fatalf("INCONCLUSIVE: (functional failure, not a C04 matter) wallet not locked after Lock, case:\n%s", c.Text())
+				}
 				c.Logf("Lock")
 				locked = true
 				n["lock"]++
